@@ -70,5 +70,5 @@ WellFormedExpr(e) ==
 Mutations == {"drop_close_brace", "drop_close_paren", "drop_close_bracket", "double_pipe", "trailing_op", "trailing_junk", "unterminated_string",
               "bad_regex", "bad_label_regex", "unwrap_in_log", "dup_label_format", "dup_label_format_mixed", "dup_label_format_mixed2", "dup_label_format_tmpl", "empty_selector_matcher", "quantile_no_param", "param_not_allowed",
               "topk_no_param", "topk_zero", "sort_grouping", "range_grouping", "unwrap_missing", "unwrap_forbidden", "missing_range",
-              "lrepl_bad_regex", "lrepl_three_args", "lrepl_bare_arg", "on_without_labels", "group_without_on"}
+              "lrepl_bad_regex", "lrepl_three_args", "lrepl_bare_arg", "on_without_labels", "group_without_on", "upper_keyword", "upper_stage"}
 =============================================================================
